@@ -38,9 +38,9 @@ pub fn new_mask(current: u16, command: &Command) -> u16 {
             for clause in clauses {
                 for action in &clause.actions {
                     let resolution = match action.permission {
-                        Permission::CopyUser => copy(current >> 6),
-                        Permission::CopyGroup => copy(current >> 3),
-                        Permission::CopyOther => copy(current),
+                        Permission::CopyUser => copy(result >> 6),
+                        Permission::CopyGroup => copy(result >> 3),
+                        Permission::CopyOther => copy(result),
                         Permission::Literal {
                             mask,
                             conditional_executable,
